@@ -1,11 +1,11 @@
 #!/bin/bash
 # usage: try_patch.sh <patch.diff> <tier> <ID> [<ID>...]   -- run checks against a scratch copy of /repo with the patch applied
 set -u
-patch=$(realpath "$1"); tier=$2; shift 2
+patch=$(realpath "$1" 2>/dev/null || echo /dev/null); tier=$2; shift 2
 wt=$(mktemp -d /tmp/trypatch.XXXXXX)
 trap 'git -C /repo worktree remove --force "$wt" >/dev/null 2>&1; rm -rf "$wt"' EXIT
-git -C /repo worktree add -q --detach "$wt" HEAD || exit 9
-git -C "$wt" apply "$patch" || { echo "PATCH DOES NOT APPLY"; exit 9; }
+git -C /repo worktree add -q --detach "$wt" "${BASE:-HEAD}" || exit 9
+[ "$patch" = "/dev/null" ] || git -C "$wt" apply "$patch" || { echo "PATCH DOES NOT APPLY"; exit 9; }
 for id in "$@"; do
   VERIF_REPO="$wt" /verif/check "$id" --tier "$tier" 2>&1 | tail -${TAIL:-6}
   echo "== $id rc=${PIPESTATUS[0]}"
